@@ -319,13 +319,13 @@ static int fs_alphabet(void *ctx, int *ops, int max) {
 	(void) ctx; (void) max; int n = 0;
 	int curv = S.hist[S.nhist - 1];
 	if (S.nhist < MAXH - 1) for (int v = 0; v < NVER; v++) if (v != curv) ops[n++] = v;
-	ops[n++] = OP_TICK1; ops[n++] = OP_TICK3; ops[n++] = OP_TICK1Z; ops[n++] = OP_TICK3Z;
+	ops[n++] = OP_TICK1; ops[n++] = OP_TICK3; ops[n++] = OP_TICK1Z; if (vh_thorough) ops[n++] = OP_TICK3Z;     /* quick tier: a thinner alphabet (no 3 s step with nanosecond reset, no seek on kept iterators, no destroy(B)) */
 	for (int h = 0; h < 2; h++) if (S.alive[h]) {
 		ops[n++] = OP_RELOAD + h; ops[n++] = OP_RELOAD_NOW + h; ops[n++] = OP_OBSERVE + h;
-		if (!S.it[h]) ops[n++] = OP_OPEN + h; else { if (!S.it_failed[h]) ops[n++] = OP_STEP + h; if (S.it_pos[h] > 0 || S.it_failed[h]) ops[n++] = OP_SEEK + h; ops[n++] = OP_CLOSE + h; }
+		if (!S.it[h]) ops[n++] = OP_OPEN + h; else { if (!S.it_failed[h]) ops[n++] = OP_STEP + h; if (vh_thorough && (S.it_pos[h] > 0 || S.it_failed[h])) ops[n++] = OP_SEEK + h; ops[n++] = OP_CLOSE + h; }
 	}
 	if (S.alive[0] && !S.it[0]) ops[n++] = OP_DESTROY_A;
-	if (S.alive[1] && !S.it[1] && S.alive[0]) ops[n++] = OP_DESTROY_B;
+	if (vh_thorough && S.alive[1] && !S.it[1] && S.alive[0]) ops[n++] = OP_DESTROY_B;
 	return n;
 }
 static uint64_t fs_canon(void *ctx) {
